@@ -348,3 +348,50 @@ func init() {
 		}
 	}
 }
+
+// core-dump: replay the cases of a JSON file and print, for case -shard and step -n, the op and the
+// observation before and after (debugging aid)
+func init() {
+	engines["core-dump"] = func(o *Opts) {
+		var all CoreCases
+		var c *CoreCase
+		if o.Replay != "" {
+			readJSON(o.Replay, &all)
+			c = &all.Cases[o.Shard]
+			if err := runCoreCase(c); err != nil {
+				panic(err)
+			}
+		} else {
+			// regenerate exactly as the engine does (-tier selects the length), pick accepted case number -shard
+			rng := NewRng(o.Seed)
+			maxOps := 45
+			if o.Tier == "thorough" {
+				maxOps = 110
+			}
+			for i := 0; i < 100000; i++ {
+				cc, err := genCoreCase(rng.Fork(), maxOps, o.Variant)
+				if err != nil {
+					continue
+				}
+				all.Cases = append(all.Cases, *cc)
+				if len(all.Cases) > o.Shard {
+					break
+				}
+			}
+			c = &all.Cases[o.Shard]
+		}
+		for i := range c.Steps {
+			if i > o.N {
+				break
+			}
+			s := &c.Steps[i]
+			fmt.Printf("step %d: %s app=%s key=%s node=%s res=%v ph=%v tg=%s tt=%d q=%s events=%+v panic=%q\n", i, s.Op.Kind, s.Op.App, s.Op.Key, s.Op.Node, s.Op.Res, s.Op.Ph, s.Op.TaskGroup, s.Op.TType, s.Op.Queue, s.Events, s.Panic)
+		}
+		if o.N < len(c.Steps) {
+			if o.N > 0 {
+				writeJSON(o.OutDir+"/pre.json", c.Steps[o.N-1].Obs)
+			}
+			writeJSON(o.OutDir+"/post.json", c.Steps[o.N].Obs)
+		}
+	}
+}
